@@ -129,7 +129,7 @@ M("e3-logical-and-no-pop", ["C02", "C05"], CO,
   [("C05", "C05-R1$", "LogicalExpression")])
 M("e3-try-end-dropped", ["C02", "C07"], CO,
   "            self._compile_statement(node.block)\n            self._emit(OpCode.TRY_END)\n", "            self._compile_statement(node.block)\n",
-  [], note="TRY_END has stack effect 0; detected by the handler-typestate rule only if built (currently undetected: documented gap)")
+  [("C07", "C07-R4$", "try-end")])
 M("e3-set-prop-no-push", ["C02", "C05"], VM,
   "            self._set_property(obj, key, value)\n            self.stack.append(value)\n", "            self._set_property(obj, key, value)\n",
   [("C05", "C05-R1$", "AssignmentExpression|UpdateExpression")])
@@ -319,6 +319,19 @@ M("c20-exec-no-copy-back", ["C20"], VA,
   "        result = self._internal.exec(string)\n        self.lastIndex = self._internal.lastIndex\n", "        result = self._internal.exec(string)\n",
   [("C20", "C20-R1", "JSRegExp.exec")])
 
+M("c01-cycle-check-removed", ["C01"], CX,
+  "                link = proto\n                while link is not None:\n                    if link is obj:\n                        raise JSTypeError(\"Cyclic __proto__ value\")\n                    link = link._prototype\n                obj._prototype = proto",
+  "                obj._prototype = proto",
+  [("C01", "C01-R8b", "set_prototype_of")])
+M("c20-split-empty-match-spins", ["C20", "C01"], VM,
+  "                        # Advance position (at least by 1 to avoid infinite loop on zero-width)\n                        pos = last_end if match_len > 0 else result.index + 1",
+  "                        pos = last_end",
+  [("C20", "C20-R3$", "split"), ("C01", "C01-R8$", "split")])
+M("c01-in-walk-no-advance", ["C01"], VM,
+  "                if current.has(key_str):\n                    found = True\n                    break\n                current = current._prototype",
+  "                if current.has(key_str):\n                    found = True\n                    break\n                if current._prototype is not None:\n                    current = current._prototype",
+  [("C01", "C01-R8$", "isinstance")])
+
 # ------------------------------------------------------------------ twins (must stay silent)
 T("t-rename-check-limits", ["C01", "C02"], VM, "_check_limits", "_poll_limits", count=3)
 T("t-poll-via-helper", ["C01", "C02"], VM,
@@ -351,3 +364,16 @@ T("t-extra-opcode-comment", ["C14", "C04"], VM, "                # 16-bit little
 T("t-sorted-set-iteration", ["C15"], CO, "        self._cell_vars = list(captured)", "        self._cell_vars = sorted(captured)", count=2)
 T("t-regex-poll-interval-literal", ["C01", "C10"], RV, "    DEFAULT_POLL_INTERVAL = 100", "    DEFAULT_POLL_INTERVAL = 64")
 T("t-translate-message", ["C01"], VM, "raise TimeLimitError(\"Regex execution timeout\")", "raise TimeLimitError(\"Regular expression timed out\")", count=6)
+
+T("t-pop-args-helper", ["C02", "C05", "C07", "C11", "C15"], VM,
+  "            args = []\n            for _ in range(arg):\n                args.insert(0, self.stack.pop())\n            method = self.stack.pop()",
+  "            args = self._pop_args(arg)\n            method = self.stack.pop()",
+  more=[(VM, "    def _call_function(self, arg_count: int, this_val: Optional[JSValue]) -> None:\n", "    def _pop_args(self, arg_count: int) -> List[JSValue]:\n        \"\"\"Pop the topmost arg_count operands, returned in call order.\"\"\"\n        if not arg_count:\n            return []\n        args = self.stack[-arg_count:]\n        del self.stack[-arg_count:]\n        return args\n\n    def _call_function(self, arg_count: int, this_val: Optional[JSValue]) -> None:\n", 1)])
+T("t-new-opcode-nop", ["C02", "C04", "C05", "C14"], "src/microjs/opcodes.py",
+  "    STORE_CELL = auto()  # Store to cell: arg = cell slot (for outer function)\n", "    STORE_CELL = auto()  # Store to cell: arg = cell slot (for outer function)\n    NOP = auto()  # No operation\n",
+  more=[(VM, "        elif op == OpCode.CATCH:\n            # Exception is on stack\n            pass\n", "        elif op == OpCode.CATCH:\n            # Exception is on stack\n            pass\n\n        elif op == OpCode.NOP:\n            pass\n", 1)])
+T("t-regex-limits-helper", ["C01", "C10"], RV,
+  "            step_count += 1\n            if step_count % self.poll_interval == 0:\n                if self.poll_callback and self.poll_callback():\n                    raise RegexTimeoutError(\"Regex execution timed out\")\n\n            if len(stack) > self.stack_limit:\n                raise RegexStackOverflow(\"Regex stack overflow\")\n\n            if pc >= end_pc:\n                return False\n",
+  "            step_count += 1\n            self._poll(step_count)\n\n            if len(stack) > self.stack_limit:\n                raise RegexStackOverflow(\"Regex stack overflow\")\n\n            if pc >= end_pc:\n                return False\n",
+  more=[(RV, "    def _backtrack(self, stack: List[Tuple]) -> Tuple:\n", "    def _poll(self, step_count: int) -> None:\n        if step_count % self.poll_interval == 0:\n            if self.poll_callback and self.poll_callback():\n                raise RegexTimeoutError(\"Regex execution timed out\")\n\n    def _backtrack(self, stack: List[Tuple]) -> Tuple:\n", 1)],
+  note="poll moved into a helper that receives the local counter")
